@@ -275,6 +275,20 @@ func doOp(x *wctx, s *shared, o Op, p, q s2.Point) string {
 				return "n/a"
 			}
 			eq := x.edgeQuery(o, false)
+			switch o.T {
+			case 1:
+				t := s2.NewMinDistanceToCellTarget(s2.CellFromCellID(s2.CellID(o.Cell)))
+				return eqAnswer(o, eq.Distance(t), func() []s2.EdgeQueryResult { return eq.FindEdges(t) }, func() bool { return eq.IsDistanceLess(t, s1.ChordAngle(o.D)) })
+			case 2:
+				// every call gets a target (and target index) of its own
+				mk := func() *s2.MinDistanceToShapeIndexTarget {
+					ti := s2.NewShapeIndex()
+					pl := s2.Polyline{p, q}
+					ti.Add(&pl)
+					return s2.NewMinDistanceToShapeIndexTarget(ti)
+				}
+				return eqAnswer(o, eq.Distance(mk()), func() []s2.EdgeQueryResult { return eq.FindEdges(mk()) }, func() bool { return eq.IsDistanceLess(mk(), s1.ChordAngle(o.D)) })
+			}
 			if o.E {
 				t := s2.NewMinDistanceToEdgeTarget(s2.Edge{V0: p, V1: q})
 				return eqAnswer(o, eq.Distance(t), func() []s2.EdgeQueryResult { return eq.FindEdges(t) }, func() bool { return eq.IsDistanceLess(t, s1.ChordAngle(o.D)) })
@@ -286,6 +300,15 @@ func doOp(x *wctx, s *shared, o Op, p, q s2.Point) string {
 				return "n/a"
 			}
 			eq := x.edgeQuery(o, true)
+			switch o.T {
+			case 1:
+				return fmt.Sprintf("%x", math.Float64bits(float64(eq.Distance(s2.NewMaxDistanceToCellTarget(s2.CellFromCellID(s2.CellID(o.Cell)))))))
+			case 2:
+				ti := s2.NewShapeIndex()
+				pl := s2.Polyline{p, q}
+				ti.Add(&pl)
+				return fmt.Sprintf("%x", math.Float64bits(float64(eq.Distance(s2.NewMaxDistanceToShapeIndexTarget(ti)))))
+			}
 			if o.E {
 				return fmt.Sprintf("%x", math.Float64bits(float64(eq.Distance(s2.NewMaxDistanceToEdgeTarget(s2.Edge{V0: p, V1: q})))))
 			}
